@@ -123,9 +123,16 @@ impl ReferenceCounter {
     // true iff this was the last reference (the entry is then removed); an absent entry is left alone
     #[verifier::external_body]
     fn dec(&mut self, x: Setsum) -> (r: bool)
-        ensures r ==> final(self).count(x) == 0,
+        ensures r ==> final(self).count(x) == 0 && old(self).count(x) == 1,
             !r ==> final(self).count(x) == (if old(self).count(x) == 0 { 0nat } else { (old(self).count(x) - 1) as nat }) && (old(self).count(x) == 0 || old(self).count(x) >= 2),
             forall|y: Setsum| y != x ==> final(self).count(y) == old(self).count(y),
+    { unimplemented!() }
+}
+impl ReferenceCounter {
+    // one more reference (same bounded comparison with the real counter as dec)
+    #[verifier::external_body]
+    fn inc(&mut self, x: Setsum)
+        ensures final(self).count(x) == old(self).count(x) + 1, forall|y: Setsum| y != x ==> final(self).count(y) == old(self).count(y),
     { unimplemented!() }
 }
 // Arc<Version>
@@ -133,13 +140,16 @@ impl ReferenceCounter {
 struct VersionArc { _p: u8 }
 impl VersionArc {
     uninterp spec fn holders(&self) -> nat;
+    // the setsums of the files the version holds, as setsums() yields them
+    uninterp spec fn files(&self) -> Seq<Setsum>;
     #[verifier::external_body]
-    fn setsums(&self) -> (r: Vec<Setsum>) { unimplemented!() }
+    fn setsums(&self) -> (r: Vec<Setsum>) ensures r@ == self.files() { unimplemented!() }
 }
+spec fn one_if(b: bool) -> nat { if b { 1 } else { 0 } }
 // Arc::strong_count(version)
 #[verifier::external_body]
 fn strong_count(v: &VersionArc) -> (r: usize) ensures r == v.holders() { unimplemented!() }
-struct LsmTree { root: Root, moved: Ghost<ISet<Setsum>>, history: Ghost<Seq<Seq<EditView>>>, base: Ghost<ISet<Digest>>, references: ReferenceCounter }
+struct LsmTree { root: Root, moved: Ghost<ISet<Setsum>>, history: Ghost<Seq<Seq<EditView>>>, base: Ghost<ISet<Digest>>, references: ReferenceCounter, version: VersionArc }
 impl LsmTree {
     // verifier::list_mani_fragments(&self.root): the fragments, oldest first, the live MANIFEST last
     #[verifier::external_body]
@@ -156,6 +166,7 @@ impl LsmTree {
     fn rename(&mut self, from: SstPath, to: SstPath) -> (r: Result<(), SError>)
         ensures final(self).moved@ == old(self).moved@.insert(from.names()) || final(self).moved@ == old(self).moved@,
             final(self).history == old(self).history, final(self).base == old(self).base, final(self).references == old(self).references,
+            final(self).version == old(self).version, final(self).root == old(self).root,
     { unimplemented!() }
 }
 
@@ -293,12 +304,85 @@ impl LsmTree {
         forall|x: Setsum| final(self).moved@.contains(x) && !old(self).moved@.contains(x) ==> final(self).references.count(x) == 0,
         // ... and only by the last holder of the version
         version.holders() != 1 ==> final(self).moved@ == old(self).moved@ && final(self).references == old(self).references,
+        // a count drops by at most one, and only for a file of this version; nothing else of the tree changes
+        version.files().no_duplicates() ==> forall|x: Setsum| final(self).references.count(x) + one_if(version.files().contains(x)) >= old(self).references.count(x),
+        forall|x: Setsum| final(self).moved@.contains(x) ==> old(self).moved@.contains(x) || version.files().contains(x),
+        final(self).version == old(self).version,
 //@ >>
 //@ loop 0 <<
-            invariant
+            invariant listed@ == version.files(), self.version == old(self).version,
                 /* contract-inv */ forall|x: Setsum| self.moved@.contains(x) && !old(self).moved@.contains(x) ==> self.references.count(x) == 0,
+                /* contract-inv */ version.files().no_duplicates() ==> forall|x: Setsum| self.references.count(x) + one_if(listed@.take(sidx as int).contains(x)) >= old(self).references.count(x),
+                /* contract-inv */ forall|x: Setsum| self.moved@.contains(x) ==> old(self).moved@.contains(x) || listed@.take(sidx as int).contains(x),
+//@ >>
+//@ endloop 0 <<
+            proof { lemma_take_contains(listed@, sidx as int); }
+//@ >>
+//@ afterloop 0 <<
+        proof { assert(listed@.take(listed@.len() as int) =~= listed@); }
 //@ >>
 //@ end
+
+    // LsmTree::explicit_ref: every file of the version gains a reference, nothing loses one
+//@ extract lsmtk/src/tree/mod.rs | impl LsmTree :: fn explicit_ref
+//@ rewrite-re X20 `fn explicit_ref\(references: &ReferenceCounter<Setsum>, version: &Version\)` => `fn explicit_ref(references: &mut ReferenceCounter, version: &VersionArc)`
+//@ rewrite X13 `for setsum in version.setsums() {` => `let listed = version.setsums(); for sidx in 0..listed.len() { let setsum = listed[sidx];`
+//@ post <<
+        forall|x: Setsum| final(references).count(x) >= old(references).count(x) + one_if(version.files().contains(x)),
+        forall|x: Setsum| !version.files().contains(x) ==> final(references).count(x) == old(references).count(x),
+//@ >>
+//@ loop 0 <<
+            invariant listed@ == version.files(),
+                /* contract-inv */ forall|x: Setsum| references.count(x) >= old(references).count(x) + one_if(listed@.take(sidx as int).contains(x)),
+                /* contract-inv */ forall|x: Setsum| !listed@.take(sidx as int).contains(x) ==> references.count(x) == old(references).count(x),
+//@ >>
+//@ endloop 0 <<
+            proof { lemma_take_contains(listed@, sidx as int); }
+//@ >>
+//@ afterloop 0 <<
+        proof { assert(listed@.take(listed@.len() as int) =~= listed@); }
+//@ >>
+//@ end
+
+    // LsmTree::install_version: the new version's files are referenced BEFORE it replaces the old one, and the old one's
+    // references are dropped only afterwards -- so installing never sends a file of the version being installed to trash,
+    // and the files of the installed version stay referenced (the invariant the next install starts from).
+//@ extract lsmtk/src/tree/mod.rs | impl LsmTree :: fn install_version
+//@ rewrite-re X20 `fn install_version\(&self, mut version2: Arc<Version>\)` => `fn install_version(&mut self, version2: VersionArc)`
+//@ rewrite-re? X20 `Self::explicit_ref\(&self\.references, ` => `Self::explicit_ref(&mut self.references, `
+//@ rewrite-re? X23 `(?m)^\s*let mut version1 = self\.version\.lock\(\)\.unwrap\(\);\n` => ``
+//@ rewrite-re? X23 `&mut \*version1\b` => `&mut self.version`
+//@ rewrite-re? X23 `&\*?version1\b` => `&self.version`
+//@ bodystart <<
+        let mut version2 = version2;   // X22: Verus has no `mut` parameter; the body works on this binding
+//@ >>
+//@ pre <<
+        // the installed version's files are referenced, and listed once each
+        forall|x: Setsum| old(self).version.files().contains(x) ==> old(self).references.count(x) >= 1,
+        old(self).version.files().no_duplicates(),
+//@ >>
+//@ post <<
+        final(self).version == version2,
+        forall|x: Setsum| version2.files().contains(x) ==> final(self).references.count(x) >= 1,
+        forall|x: Setsum| final(self).moved@.contains(x) && !old(self).moved@.contains(x) ==> !version2.files().contains(x) && old(self).version.files().contains(x),
+//@ >>
+//@ end
+}
+proof fn lemma_take_contains(s: Seq<Setsum>, i: int)
+    requires 0 <= i < s.len()
+    ensures forall|x: Setsum| #![trigger s.take(i + 1).contains(x)] #![trigger s.take(i).contains(x)] s.take(i + 1).contains(x) <==> s.take(i).contains(x) || x == s[i],
+        s.take(i + 1).contains(s[i]),
+        s.no_duplicates() ==> !s.take(i).contains(s[i]),
+{
+    let a = s.take(i); let b = s.take(i + 1);
+    assert(b =~= a.push(s[i]));
+    assert(b[i] == s[i]);
+    assert forall|x: Setsum| b.contains(x) <==> a.contains(x) || x == s[i] by {
+        if a.contains(x) { let k = choose|k: int| 0 <= k < a.len() && a[k] == x; assert(b[k] == x); }
+        if x == s[i] { assert(b[i] == x); }
+        if b.contains(x) { let k = choose|k: int| 0 <= k < b.len() && b[k] == x; if k < i { assert(a[k] == x); } }
+    }
+    if s.no_duplicates() && a.contains(s[i]) { let k = choose|k: int| 0 <= k < a.len() && a[k] == s[i]; assert(s[k] == s[i]); }
 }
 
 
@@ -489,7 +573,7 @@ fn process_one_record(v: &mut LsmVerifier, entry: &VPath, output_setsum: Setsum,
 //@ >>
 //@ end
 
-//@ min-verified 4
+//@ min-verified 7
 
 } // verus!
 fn main() {}
